@@ -3,7 +3,7 @@
 META = {
     'level': 'exploration',
     'rule': ('Random DAGs (types incl. an uncached limited type and the per-name subset filter NF and the transforming, non-idempotent filter NT and the filter NE that selects nothing (empty dict)) x {serial, fork, spawn} x max_workers x two '
-             'Lab contexts holding unique canary strings. Each run() start event carries pid, ppid, native thread '
+             'Lab contexts holding unique canary strings (in half of the cases the second Lab runs the very task objects the first one ran). Each run() start event carries pid, ppid, native thread '
              'id, the value of a harness module global that the caller overwrites after import, and digest + key '
              'list of self.context. Oracle = per-backend process-model table (serial: caller pid+thread; fork: own '
              'child pid per task, ppid == caller, sees the mutated global; spawn: own child pid, ppid == caller, sees '
@@ -52,6 +52,7 @@ def one(rep, rng, j, scn=None):
     scn.pop('free_sleep', None)
     scn['max_workers'] = rng.choice([1, 2, 4, None])
     scn['empty_ctx'] = rng.random() < 0.1
+    scn['reuse_objects'] = rng.random() < 0.5 and not scn.get('pickled_copies')
     if backend == 'serial' and not scn['empty_ctx'] and rng.random() < 0.6:
         names = list(scn['spec']['tasks'])
         scn['ctx_mutators'] = rng.sample(names, rng.randrange(1, min(3, len(names)) + 1))
@@ -78,6 +79,7 @@ def _judge(rep, rng, scn, backend):
     srng = __import__('random').Random(scn.get('sched_seed', 0))
     scn['task_plan'] = {n: {'shape': 'selfref'} for n, t in scn['spec']['tasks'].items()
                         if t['type'] not in ('NJ', 'NK', 'NSJ') and srng.random() < 0.35}
+    first_objects = None
     for variant in (0, 1):
         can = [f'CANARY-{variant}-{rng.randrange(1 << 40):x}' for _ in range(3)]
         names = list(scn['spec']['tasks'])
@@ -113,7 +115,12 @@ def _judge(rep, rng, scn, backend):
                         return
             gate.on_rest = on_rest
             return gate
-        out = engine.run_dag(scn, keep=True, hooks_factory=hooks_factory)
+        reuse = variant == 1 and scn.get('reuse_objects') and first_objects is not None
+        out = engine.run_dag(scn, keep=True, hooks_factory=hooks_factory, prebuilt=(first_objects if reuse else None))
+        if variant == 0 and out.exc is None:
+            first_objects = (out.built, out.req)
+        if reuse:
+            rep.count('runs_of_the_same_task_objects_under_another_lab_context')
         if ev['done']:
             rep.count('entries_evicted_between_planning_and_loading')
         try:
@@ -191,6 +198,7 @@ def run_shard(rep):
     rep.require('runs_fork', 10)
     rep.require('runs_serial', 5)
     rep.require('executions_after_a_task_rebound_the_context', 20)
+    rep.require('runs_of_the_same_task_objects_under_another_lab_context', 20)
     rep.require('entries_evicted_between_planning_and_loading', 5)
     for j in range(rep.shard, cfg['n'], rep.nshards):
         if rep.expired():
